@@ -423,6 +423,53 @@ def config_trees(run, tier, rng):
     run.sample({"config_tree": cfg})
 
 
+# the aliases the pinned tree documents, per family (class docstrings / docs/source): what "every alias of every concrete
+# class" quantifies over.  New classes or new alias names in a later tree are not this table's business.
+DOCUMENTED = {
+    "ScalingFunction": {"LinearScaling": ["linear", "uniform"], "OctaveScaling": ["octave"], "MelScaling": ["mel"], "BarkScaling": ["bark"]},
+    "LinearFilterBank": {"TriangularOverlappingFilterBank": ["tri", "triangular"], "Fbank": ["fbank"], "GaborFilterBank": ["gabor"],
+                         "ComplexGammatoneFilterBank": ["gammatone", "tonebank"]},
+    "WindowFunction": {"BartlettWindow": ["bartlett", "tri", "triangular"], "BlackmanWindow": ["black", "blackman"], "HammingWindow": ["hamming"],
+                       "HannWindow": ["hann", "hanning"], "GammaWindow": ["gamma"]},
+    "FrameComputer": {"ShortTimeFourierTransformFrameComputer": ["stft"], "ShortIntegrationFrameComputer": ["si"]},
+    "PreProcessor": {"Dither": ["dither", "dithering"], "Preemphasize": ["preemph", "preemphasis", "preemphasize"]},
+    "PostProcessor": {"Standardize": ["cmvn", "normalize", "standardize", "unit"], "Deltas": ["deltas"], "Stack": ["stack"]},
+}
+
+
+def documented_aliases(run):
+    """Every documented alias resolves to its class within its family; an alias documented only for classes of ANOTHER
+    family does not make one of this family's documented classes appear (the alias sets of unrelated classes are
+    separate things)."""
+    fams = {"ScalingFunction": scales.ScalingFunction, "LinearFilterBank": filters.LinearFilterBank, "WindowFunction": filters.WindowFunction,
+            "FrameComputer": compute.FrameComputer, "PreProcessor": pre.PreProcessor, "PostProcessor": post.PostProcessor}
+    for fname, fam in fams.items():
+        own = {a: cn for cn, als in DOCUMENTED[fname].items() for a in als}
+        foreign = sorted({a for g, tab in DOCUMENTED.items() if g != fname for als in tab.values() for a in als} - set(own))
+        for a in sorted(own) + foreign:
+            got = None
+            for kw in FAMILY_ARGS[fname]:
+                try:
+                    with warnings.catch_warnings():
+                        warnings.simplefilter("ignore")
+                        got = type(fam.from_alias(a, **kw)).__name__
+                    break
+                except ValueError:
+                    if a in own:
+                        continue
+                    got = "ValueError"
+                    break
+                except TypeError:
+                    got = "TypeError"  # (a class was found and refused these arguments: try the next set)
+                    continue
+            run.evaluations += 1
+            if a in own and got != own[a]:
+                run.violation({"kind": "documented_alias_does_not_resolve_to_its_class", "family": fname, "alias": a, "documented": own[a], "got": got})
+            if a not in own and got in DOCUMENTED[fname] or (a not in own and got == "TypeError"):
+                run.violation({"kind": "alias_of_another_family_resolves_here", "family": fname, "alias": a, "got": got,
+                               "what": "documented only for a class of another family"})
+
+
 def run(tier, seed):
     run = common.Run("C08", tier, seed, matchers={"alias_cross_branch": matcher_cross_branch})
     rng = random.Random(seed)
@@ -483,6 +530,7 @@ def run(tier, seed):
     common.assert_binding_live(run, "TraceAlias", "TraceAlias.cfg", clean, corrupt, "a resolved query recorded as ValueError")
     run.sample({"live_registry": traces[ntab]["family"], "classes": [c["name"] for c in traces[ntab]["classes"]], "queries": traces[ntab]["queries"][:6]})
     from_arg_table(run)
+    documented_aliases(run)
     config_trees(run, tier, rng)
     run.extra["class_tables"] = ntab
     run.extra["rule"] = "every class table with <= %d classes over 2 aliases (own subset or inherited), every (root, alias) query; live registry of 6 families; from_arg table; nested config trees" % maxc
